@@ -20,7 +20,10 @@
 (* JSON value a fresh $file cell, every (value, selector) round a fresh tree *)
 (* selected from the value as read -- so no write outlives its rule (BEGIN,  *)
 (* END), its value ($file) or its round ($).  Within a round writes are      *)
-(* ordinary assignments: later activations of the round see them.            *)
+(* ordinary assignments: later activations of the round see them.  Every     *)
+(* ENDFILE rule is bound to the selected root on its own: `$ = v` in an      *)
+(* ENDFILE rule rebinds $ for the rest of that rule only (the tree of the    *)
+(* round is shared: `$.p = v` is seen by the ENDFILE rules that follow).     *)
 (*                                                                           *)
 (* Not modelled (left open by the statement): `next` outside a pattern rule  *)
 (* body, $ in ENDFILE once the root cell of the round was reassigned as a    *)
@@ -80,8 +83,10 @@ InArrayRound == phase = "files" /\ level = "rule" /\ EffN >= 0
 DollarW == IF phase \in {"begin", "end"} THEN NoW
            ELSE IF InArrayRound THEN ElOv(cell, ei + 1) ELSE cell.root
 Written(w, r) == IF w = "sd" THEN <<"w", r>> ELSE <<"p", r>>
+\* `$ = v` in an ENDFILE rule rebinds the rule's own $: the next ENDFILE rule is bound to the selected root again
+RuleLocal(w) == phase \in {"begin", "end"} \/ (phase = "files" /\ level = "ef" /\ w = "sd")
 CellAfter(w, r) ==
-  IF w \in {"none", "sf"} \/ phase \in {"begin", "end"} THEN cell
+  IF w \in {"none", "sf"} \/ RuleLocal(w) THEN cell
   ELSE IF InArrayRound THEN SetEl(cell, ei + 1, Written(w, r))
   ELSE [cell EXCEPT !.root = Written(w, r)]
 \* a member can be assigned only in an object: not in null (BEGIN, END), not in a cell holding a scalar
@@ -386,6 +391,14 @@ FreshBindings ==
        \* ... and the first activation for a value sees $file name the file
        /\ (InFiles(Last) /\ ~(InFiles(Prev) /\ SameValue(Prev, Last))) => Last.fw = 0
        /\ (InFiles(Last) /\ InFiles(Prev) /\ SameValue(Prev, Last) /\ ~SameRoot(Prev, Last)) => Last.fw \in {0, -1}
+       \* every ENDFILE rule is bound to the selected root: `$ = v` in one is gone in the next, which sees what the
+       \* ENDFILE rule before saw (plus a member that one wrote into the shared tree); $ is open there only when it
+       \* was open for the first ENDFILE rule (the root cell reassigned as a whole by a BEGINFILE / pattern rule)
+       /\ (Prev.k = "EF" /\ Last.k = "EF" /\ SameRoot(Prev, Last)) =>
+             /\ Last.dopen = Prev.dopen /\ Last.ews = Prev.ews /\ Last.en = Prev.en
+             /\ Last.cw = (IF Prev.w = "sm" THEN Written("sm", Prev.r) ELSE Prev.cw)
+       /\ (ObsKeep = 0 /\ Last.k = "EF" /\ Last.dopen) =>
+             \E k \in 1..Len(obs) : obs[k].k \in {"BF", "P"} /\ obs[k].w = "sd" /\ SameRoot(obs[k], Last)
 \* within a round a write is an ordinary assignment: the next activation on the same cell sees it
 WritesLast ==
   HasPair =>
